@@ -35,7 +35,7 @@ THEOREMS = ["OllamaVerif.C18." + t for t in (
     "greedy_argmax", "filters_nonempty_prefix", "topK_isTopK", "index_in_range",
     "sample_admissible_partial", "sample_admissible_fixed_partial", "never_neg_inf", "result_mem_filters",
     "pick_search_spec",
-    "deterministic", "stream_of_seed", "F18_nan_instead_of_token", "F18_guard_fails",
+    "deterministic", "hist_nth", "Sample_indep_r", "stream_of_seed", "F18_nan_instead_of_token", "F18_guard_fails",
     "F18b_greedy_keeps_leading_nan", "zOps_laws")] + [
     "OllamaVerif.Sampler.pick_spec", "OllamaVerif.Sampler.afterTopK_spec", "OllamaVerif.Sampler.afterTopK_spec_fix", "OllamaVerif.Sampler.bsearch_spec",
 ]
@@ -48,7 +48,7 @@ def normalize(s):
 
 def run(ctx):
     ctx.lean_check(MODULES, THEOREMS)
-    env = {"VERIF_N": ctx.scale(2500, 60000), "VERIF_C18_FIX": FIX,
+    env = {"VERIF_N": ctx.scale(1500, 30000), "VERIF_C18_FIX": FIX,
            "VERIF_CORPUS": core.ROOT + "/corpus/C18"}
     if ctx.replay:
         env["VERIF_REPLAY"] = ctx.replay_line_file()
